@@ -657,6 +657,109 @@ fn generic_walk(ctx: &mut Ctx, r: &mut SplitMix64, q: &mut Q, other: Option<&mut
     }
 }
 
+/// One serial `tempering_step` of the container: every replica afterwards holds some replica's
+/// former configuration, moved unchanged; each replica is judged with its OWN Hamiltonian.
+fn tempering_step_cases(ctx: &mut Ctx, tc: &mut TemperingContainer<SplitMix64, G<SplitMix64>>) -> bool {
+    let nrep = tc.num_graphs();
+    let before: Vec<Snap> = tc.graph_ref().iter().map(|(g, _)| snap_g(g)).collect();
+    let res = catch(|| tc.tempering_step());
+    match res {
+        Err(msg) => {
+            let tok = ising_view(&tc.graph_ref()[0].0).token;
+            emit_panic(ctx, "move", "tempering_step", &tok, 0, &before[0], &msg);
+            false
+        }
+        Ok(()) => {
+            for k in 0..nrep {
+                let g = &tc.graph_ref()[k].0;
+                let a = snap_g(g);
+                let src = before.iter().find(|b| b.state == a.state && b.ops == a.ops);
+                let (b, extra) = match src {
+                    Some(b) => (b.clone(), Ok(())),
+                    None => (before[k].clone(), Err("C06 tempering_step: replica holds a configuration no replica had before".to_string())),
+                };
+                if b != before[k] {
+                    stat("tempering.swapped", 1);
+                    if g.get_longitudinal_field() == 0.0 && tc.graph_ref().iter().any(|(o, _)| o.get_longitudinal_field() != 0.0) {
+                        stat("tempering.swapped_into_zero_field_replica", 1);
+                    }
+                }
+                let fold = fold_g(g);
+                let hv = ising_view(g);
+                emit_case(ctx, "move", "tempering_step", &hv, g.get_cutoff(), &b, &a, g.get_manager_ref(), fold, extra);
+            }
+            true
+        }
+    }
+}
+
+/// Tempering ladder that mixes a replica with longitudinal field exactly 0 with replicas with a
+/// field of one sign (accepted by `can_swap_managers`: signum(0.0) == signum(+h)), beta and Gamma
+/// ladders mixed in; >= 30 rounds of [time steps on every replica; tempering_step]. A field op has
+/// weight 0 (indeed no bond index) in the zero-field replica, so the real code must refuse every
+/// swap that would move one there; every replica is checked with its own Hamiltonian after every call.
+fn field_ladder_scenario(ctx: &mut Ctx, r: &mut SplitMix64, rounds: usize) {
+    let base = gen_ising_spec(r, Some(false));
+    let (ha, hb) = (*r.pick(&[0.25, 0.5, 1.0]), *r.pick(&[0.25, 0.5, 1.0, 2.0]));
+    let fields: Vec<f64> = match r.below(9) {
+        0 => vec![0.0, ha, hb],
+        1 => vec![ha, 0.0, hb],
+        2 => vec![ha, hb, 0.0],
+        3 => vec![0.0, ha],
+        4 => vec![ha, 0.0],
+        5 => vec![-0.0, -ha],
+        6 => vec![-ha, -0.0],
+        7 => vec![-0.0, -ha, -hb],
+        _ => vec![0.0, 0.0, ha, hb],
+    };
+    let nrep = fields.len();
+    stat(&format!("ladder.fields{}", nrep), 1);
+    let mut tc: TemperingContainer<SplitMix64, G<SplitMix64>> = TemperingContainer::new(SplitMix64::new(r.next()));
+    for h in fields.iter() {
+        let s = IsingSpec {
+            nvars: base.nvars,
+            edges: base.edges.clone(),
+            gamma: base.gamma * *r.pick(&[0.5, 1.0, 1.0, 2.0]),
+            h: *h,
+        };
+        let cutoff = r.range(1, 8) as usize;
+        let mut g = build_ising(r, &s, cutoff);
+        // RVB with a field is exercised in the ordinary walks; keep the ladder on the cluster path
+        g.set_run_rvb(false);
+        emit_init_g(ctx, &g);
+        let beta = *r.pick(&[0.25, 0.5, 1.0, 1.0, 2.0]);
+        if let Err(e) = tc.add_qmc_stepper(g, beta) {
+            // the library refused the ladder (not a defect): nothing to walk
+            stat("ladder.refused", 1);
+            let _ = e;
+            return;
+        }
+    }
+    for _ in 0..rounds {
+        for i in 0..nrep {
+            let nsteps = r.range(1, 2);
+            for _ in 0..nsteps {
+                let beta = tc.graph_ref()[i].1;
+                let ok = if r.chance(1, 3) {
+                    ising_timestep(ctx, &mut tc.graph_mut()[i].0, beta, false)
+                } else {
+                    // the same work as a timestep, through the single-call API
+                    ising_single(ctx, &mut tc.graph_mut()[i].0, "diag", "single_diagonal_step", |g| g.single_diagonal_step(beta))
+                        && ising_single(ctx, &mut tc.graph_mut()[i].0, "icluster", "single_cluster_step", |g| {
+                            g.single_cluster_step();
+                        })
+                };
+                if !ok {
+                    return;
+                }
+            }
+        }
+        if !tempering_step_cases(ctx, &mut tc) {
+            return;
+        }
+    }
+}
+
 fn ising_scenario(ctx: &mut Ctx, r: &mut SplitMix64, ncalls: usize, force_h: Option<bool>) {
     let spec = gen_ising_spec(r, force_h);
     let nrep = r.range(2, 3) as usize;
@@ -694,37 +797,7 @@ fn ising_scenario(ctx: &mut Ctx, r: &mut SplitMix64, ncalls: usize, force_h: Opt
                     g.single_rvb_sweep(k);
                 })
             }
-            11 | 12 => {
-                // container tempering step: every replica afterwards holds some replica's former
-                // configuration, moved unchanged
-                let before: Vec<Snap> = tc.graph_ref().iter().map(|(g, _)| snap_g(g)).collect();
-                let res = catch(|| tc.tempering_step());
-                match res {
-                    Err(msg) => {
-                        let tok = ising_view(&tc.graph_ref()[0].0).token;
-                        emit_panic(ctx, "move", "tempering_step", &tok, 0, &before[0], &msg);
-                        false
-                    }
-                    Ok(()) => {
-                        for k in 0..nrep {
-                            let g = &tc.graph_ref()[k].0;
-                            let a = snap_g(g);
-                            let src = before.iter().find(|b| b.state == a.state && b.ops == a.ops);
-                            let (b, extra) = match src {
-                                Some(b) => (b.clone(), Ok(())),
-                                None => (before[k].clone(), Err("C06 tempering_step: replica holds a configuration no replica had before".to_string())),
-                            };
-                            if b != before[k] {
-                                stat("tempering.swapped", 1);
-                            }
-                            let fold = fold_g(g);
-                            let hv = ising_view(g);
-                            emit_case(ctx, "move", "tempering_step", &hv, g.get_cutoff(), &b, &a, g.get_manager_ref(), fold, extra);
-                        }
-                        true
-                    }
-                }
-            }
+            11 | 12 => tempering_step_cases(ctx, &mut tc),
             13 => {
                 // raw public swap between two replicas (cutoffs may differ)
                 let j = (i + 1) % nrep;
@@ -871,6 +944,58 @@ fn build_generic(r: &mut SplitMix64, kind: u64, nvars: usize, state: Vec<bool>, 
                 q.make_interaction(m, vec![0, nvars - 1]).unwrap();
             }
         }
+        3 => {
+            // Ising-symmetric two-site terms, constant single-site terms (cluster edges) and
+            // symmetry-BREAKING single-variable field terms (one diagonal entry of weight 0 after
+            // the offset), registered in a random order: the field terms come first, in the
+            // middle or last. The library must never run plain cluster flips on such a model.
+            let mut terms: Vec<(u8, usize)> = vec![];
+            for v in 0..nvars - 1 {
+                terms.push((0, v));
+            }
+            for v in 0..nvars {
+                terms.push((1, v));
+            }
+            let nfield = r.range(1, nvars as i64) as usize;
+            let field_first = r.below(3);
+            let mut fields: Vec<(u8, usize)> = (0..nfield).map(|v| (2u8, v)).collect();
+            // shuffle the symmetric / constant part
+            for i in (1..terms.len()).rev() {
+                let j = r.below(i as u64 + 1) as usize;
+                terms.swap(i, j);
+            }
+            let order: Vec<(u8, usize)> = match field_first {
+                0 => {
+                    fields.extend(terms);
+                    fields
+                }
+                1 => {
+                    let mid = terms.len() / 2;
+                    let mut o = terms[..mid].to_vec();
+                    o.extend(fields);
+                    o.extend(terms[mid..].iter().cloned());
+                    o
+                }
+                _ => {
+                    terms.extend(fields);
+                    terms
+                }
+            };
+            let j = *r.pick(&[0.5, 1.0, 1.5]);
+            let c = *r.pick(&[0.5, 1.0, 2.0]);
+            let h = *r.pick(&[0.5, 1.0, -0.5, -1.0]);
+            let ferro = r.coin();
+            for (k, v) in order {
+                match k {
+                    0 => {
+                        let m = if ferro { vec![j, 0.0, 0.0, j] } else { vec![0.0, j, j, 0.0] };
+                        q.make_diagonal_interaction(m, vec![v, v + 1]).unwrap();
+                    }
+                    1 => q.make_interaction(vec![c, c, c, c], vec![v]).unwrap(),
+                    _ => q.make_interaction_and_offset(vec![-h, 0.0, 0.0, h], vec![v]).unwrap(),
+                }
+            }
+        }
         _ => {
             // mixed: three-variable diagonal term, offset constructors, non-symmetric site terms
             if nvars >= 3 {
@@ -890,9 +1015,9 @@ fn build_generic(r: &mut SplitMix64, kind: u64, nvars: usize, state: Vec<bool>, 
 }
 
 fn generic_scenario(ctx: &mut Ctx, r: &mut SplitMix64, ncalls: usize) {
-    let kind = r.below(3);
+    let kind = *r.pick(&[0u64, 1, 2, 3, 3]);
     let nvars = r.range(2, 4) as usize;
-    let loops = kind == 0 || r.coin();
+    let loops = kind == 0 || (kind != 3 && r.coin());
     let seed_r = r.next();
     let mut r1 = SplitMix64::new(seed_r);
     let mut r2 = SplitMix64::new(seed_r);
@@ -1085,10 +1210,11 @@ fn main() {
             let (nsc, ncalls) = if a.thorough { (1200, 60) } else { (500, 50) };
             for k in 0..nsc {
                 let mut rr = SplitMix64::new(r.next());
-                guarded(&mut ctx, "scenario", |ctx| match k % 4 {
-                    0 => ising_scenario(ctx, &mut rr, ncalls, Some(false)),
+                guarded(&mut ctx, "scenario", |ctx| match k % 8 {
+                    0 | 4 => ising_scenario(ctx, &mut rr, ncalls, Some(false)),
                     1 => ising_scenario(ctx, &mut rr, ncalls, Some(true)),
-                    2 => generic_scenario(ctx, &mut rr, ncalls),
+                    2 | 6 => generic_scenario(ctx, &mut rr, ncalls),
+                    5 => field_ladder_scenario(ctx, &mut rr, 30),
                     _ => ising_scenario(ctx, &mut rr, ncalls, None),
                 });
             }
@@ -1100,8 +1226,15 @@ fn main() {
             for k in 0..nsc {
                 let mut rr = SplitMix64::new(r.next());
                 guarded(&mut ctx, "scenario", |ctx| match k % 5 {
-                    0 => ising_scenario(ctx, &mut rr, ncalls, Some(false)),
+                    0 => {
+                        if k % 2 == 0 {
+                            ising_scenario(ctx, &mut rr, ncalls, Some(false))
+                        } else {
+                            field_ladder_scenario(ctx, &mut rr, 32)
+                        }
+                    }
                     2 => generic_scenario(ctx, &mut rr, ncalls),
+                    4 => field_ladder_scenario(ctx, &mut rr, 32),
                     _ => ising_scenario(ctx, &mut rr, ncalls, Some(true)),
                 });
             }
